@@ -6,11 +6,11 @@ package PKG
 
 import (
 	"bytes"
-	"time"
 	"encoding/json"
 	"fmt"
 	"os"
 	"reflect"
+	"time"
 )
 
 type vReplayT struct {
@@ -109,12 +109,12 @@ func vassert(c bool, label string) {
 		fmt.Printf("VFAIL %s\n", label)
 	}
 }
-func vfail(label string)          { vassert(false, label) }
-func vreach(label string)         {}
-func vand(a, b bool) bool         { return a && b }
-func vor(a, b bool) bool          { return a || b }
-func vnot(a bool) bool            { return !a }
-func vimplies(a, b bool) bool     { return !a || b }
+func vfail(label string)      { vassert(false, label) }
+func vreach(label string)     {}
+func vand(a, b bool) bool     { return a && b }
+func vor(a, b bool) bool      { return a || b }
+func vnot(a bool) bool        { return !a }
+func vimplies(a, b bool) bool { return !a || b }
 func vall(cs ...bool) bool {
 	for _, c := range cs {
 		if !c {
@@ -187,7 +187,8 @@ func vgetNow() int64 {
 func vrealclock() { vRealClock = true }
 
 var vRealClock bool
-func vyield()          {}
+
+func vyield() {}
 
 // vquiesce: natively, make every armed timer due on the redirected clock and give the
 // other goroutines real time to run.
@@ -199,8 +200,8 @@ func vquiesce() {
 	vNowNs += 2000000
 	time.Sleep(40 * time.Millisecond)
 }
-func vsymbolic() bool  { return false }
-func vnote(s string)   {}
+func vsymbolic() bool { return false }
+func vnote(s string)  {}
 
 // vottoSlow tells the engine's otto model how long the "slow" script runs (natively the
 // real script sleeps by itself).
